@@ -232,8 +232,8 @@ func init() {
 func init() {
 	// ---- rules added after the second wave of seeded changes
 	ctl("Create writes indexes while validating", "X7", "(*cache.RowCache).Create|error return", "cache", "RowCache", "Create", kStmt, "addIndexes[index][val] = uuidset", 0, before("r.indexes[index][val] = uuidset"))
-	registerControl(&ControlDef{Name: "selected columns kept across tables", Rule: "S-LOOP", Expect: "filter2|per-iteration container", Edit: func(p *Program) ([]TextEdit, error) {
-		decl, err := locate(p, "server", "monitor", "filter2", kStmt, "cols := make(map[string]bool)", 0)
+	registerControl(&ControlDef{Name: "table update kept across tables", Rule: "S-LOOP", Expect: "filter2|per-iteration container", Edit: func(p *Program) ([]TextEdit, error) {
+		decl, err := locate(p, "server", "monitor", "filter2", kStmt, "tu2 := ovsdb.TableUpdate2{}", 0)
 		if err != nil {
 			return nil, err
 		}
@@ -241,7 +241,7 @@ func init() {
 		if err != nil {
 			return nil, err
 		}
-		return []TextEdit{p.editReplace(decl, ""), p.editReplace(pre, p.text(pre)+"\ncols := make(map[string]bool)")}, nil
+		return []TextEdit{p.editReplace(decl, ""), p.editReplace(pre, p.text(pre)+"\ntu2 := ovsdb.TableUpdate2{}")}, nil
 	}})
 	ctl("inserted rows skip reference initialisation", "T-INITREFS", "processRowUpdate|references initialised", "updates", "referenceTracker", "processRowUpdate", kStmt, "updateRefs = getReferenceModificationsFromRow(&rt.dbModel, table, uuid, row.Insert, nil)", 0, func(orig string) string {
 		return orig + "\napplyReferenceModifications(rt.references, updateRefs)\nreturn nil"
@@ -506,4 +506,9 @@ func init() {
 	ctl("OvsMap decoder refuses boolean keys", "K-ATOMKEYS", "UnmarshalJSON|bool key admitted", "ovsdb", "OvsMap", "UnmarshalJSON", kCase, "string, float64, bool, UUID", 0, sub("float64, bool", "float64"))
 	ctl("Row decoder keeps going after a column that cannot be decoded", "ERR-USE-CODEC", "(*ovsdb.Row).UnmarshalJSON|error of", "ovsdb", "Row", "UnmarshalJSON", kStmt, "return err", 0, to("continue"))
 	ctl("event processor not counted in handlerShutdown", "R-WG", "connect|go ", "client", "ovsdbClient", "connect", kStmt, "defer o.handlerShutdown.Done()", 0, del)
+}
+
+func init() {
+	ctl("omitted columns treated like an empty list", "S-ALLCOLS", "filter|omitted columns", "server", "", "columnSet", kExpr, "columns == nil", 0, to("false"))
+	ctl("empty table update stored", "S-NOEMPTY", "filter2|table added only", "server", "monitor", "filter2", kExpr, "len(tu2) > 0", 0, to("true"))
 }
